@@ -67,10 +67,10 @@ func (rmap *Records) GetRecord(key string) (*Record, bool) {
 
 // RemoveRecord removes a record with the specified key.
 func (rmap *Records) RemoveRecord(key string) error {
-	if _, ok := rmap.Load(key); !ok {
+	// A single atomic operation: of two concurrent removals only one succeeds.
+	if _, ok := rmap.LoadAndDelete(key); !ok {
 		return fmt.Errorf("%w : %s", ErrNotFound, key)
 	}
-	rmap.Delete(key)
 	return nil
 }
 
